@@ -948,6 +948,7 @@ func runC16(c *Ctx, tier string) {
 	runC16B1(c)
 	runSeekIndexMaxMeaning(c, "C16-B2")
 	runSeekRangeMerge(c, "C16-R1")
+	runFirstKeyByPosition(c, "C16-B3")
 	checkNullsMax(c, "C16-N1")
 }
 
